@@ -148,6 +148,8 @@ def run(M, rep, tier, only=None):
         # fractional intervals (positions of samples are not exactly representable: 0.3 / 0.1 = 2.9999999999999996) and a
         # large offset / interval ratio (a relative tolerance must apply to the sample index, not to the raw position)
         grid += [(None, 0.1), (0.0, 0.05), (1000.0, 0.01), (250000.0, 0.05), (-1000.0, 0.01)]
+        if tier == "thorough":
+            grid += [(o_, i_) for o_ in (None, 0.3, -0.7, 12.5, 1e5, -1e5) for i_ in (0.001, 0.02, 0.3, 1.0 / 3, 7.0, 1.0 / 30000)]
         for offset, interval in grid:
                 o = offset or 0.0
                 pts = {"before": o - 1.3 * interval, "first": o, "on": o + 3 * interval,
@@ -155,7 +157,7 @@ def run(M, rep, tier, only=None):
                        "between-high": o + 3.7 * interval, "zero": 0.0, "just-before": o - 0.4 * interval,
                        "first-gap": o + 0.4 * interval}
                 if interval < 0.5:
-                    for k in (3, 7, 43, 57):
+                    for k in ((3, 7, 43, 57) if tier != "thorough" else tuple(range(1, 60, 2))):
                         pts["sample-%d" % k] = k * interval + o          # what position_at(k) returns
                         pts["third-%d" % k] = o + (k + 1.0 / 3) * interval
                     if abs(o) > 100:
